@@ -48,7 +48,7 @@ func H_C05_compareData() {
 }
 
 var alphaShrink = []uint8{opReturn, opDrawBool, opErrorf, opFatalA, opFatalB, opFatalIfBit, opSkip, opPanicStr, opNilDeref, opNilDerefB, opDeepA, opDeepB, opIfBit}
-var alphaShrinkDeep = []uint8{opReturn, opDrawBool, opDrawSmall, opErrorf, opFatalA, opFatalB, opFatalIfBit, opSkip, opPanicStr, opNilDeref, opNilDerefB, opDeepA, opDeepB, opIfBit}
+var alphaShrinkDeep = []uint8{opReturn, opDrawBool, opDrawSmall, opErrorf, opFatalA, opFatalB, opFatalIfBit, opFatalVal, opSkip, opPanicStr, opNilDeref, opNilDerefB, opDeepA, opDeepB, opIfBit}
 
 // H_C05_accept: one step of the real shrinker.accept from any state a run can produce.
 func H_C05_accept() {
@@ -89,6 +89,9 @@ func H_C05_accept() {
 		reach("rejected")
 		vassert(compareData(s.rec.data, old) == 0, "C05: a rejected candidate changed the current best buffer")
 		vassert(traceback(s.err) == traceback(err0), "C05: a rejected candidate changed the current failure")
+		// Inv also after a rejection: the current best still replays to the error it is reported with
+		errR := checkOnce(newT(tb, newBufBitStream(s.rec.data, false), false, nil), p.prop)
+		vassert(errR != nil && sameError(errR, s.err), "C01: after a rejected candidate the shrinker's buffer and its recorded failure no longer belong together")
 		return
 	}
 	reach("accepted")
